@@ -144,6 +144,25 @@ Proof.
   exact (pattern_keys_same_as_requested D HD Hac fuel fuel' extra cs l l' E E').
 Qed.
 
+(** ... and on a dump whose recorded key lists pass the recomputation (case field [mkeys ()]):
+    what an accepting state records for pattern i is, as a set, what the one-pattern matcher
+    of pattern i requests *)
+Theorem c03_dump_records_the_single_matcher_keys :
+  forall (K V M H P : Type) (D : DomOps K V M H P), DomEq D -> acyclic (req D) ->
+  forall (fuel fuel' : nat) (A : Automaton.automaton K P)
+         (pats : list (option (list K * list (constraint K P)))),
+    match_key_mismatches D fuel A pats = [] ->
+    forall s pk, In s (Automaton.au_states A) -> In pk (Automaton.a_matches s) ->
+      exists extra cs, nth_error pats (N.to_nat (fst pk)) = Some (Some (extra, cs))
+        /\ forall l', Matchers.requested D fuel' extra cs = Ok l' -> forall x, In x (snd pk) <-> In x l'.
+Proof.
+  intros K V M H P D HD Hac fuel fuel' A pats Em s pk Hs Hpk.
+  destruct (match_keys_cover D HD Hac fuel A pats Em s pk Hs Hpk) as [extra [cs [l [En [Ep [H1 [H2 _]]]]]]].
+  exists extra, cs. split; [exact En|]. intros l' El' x.
+  rewrite <- (pattern_keys_same_as_requested D HD Hac fuel fuel' extra cs l l' Ep El' x).
+  split; [apply H2|apply H1].
+Qed.
+
 Print Assumptions c03_accepts_iff_constraints.
 Print Assumptions c03_portgraph_accepts_iff_constraints.
 Print Assumptions c03_string_many_equals_naive.
@@ -152,3 +171,4 @@ Print Assumptions c04_c06_certified_automata_agree.
 Print Assumptions c03_portgraph_single_then_many_on_single_root_sets.
 Print Assumptions c03_portgraph_many_then_single_on_good_patterns.
 Print Assumptions c03_recorded_keys_are_the_single_matcher_keys.
+Print Assumptions c03_dump_records_the_single_matcher_keys.
